@@ -1271,6 +1271,129 @@ pub fn group_orders(d: &[Q], groups: &[Vec<usize>], r: &mut Rng) -> Vec<Vec<Q>> 
     out
 }
 
+// ---------------------------------------------------------------- labels from the algorithm's own name spaces
+/// relabel_with through the entry point with the fixed hash function and default limits (nothing is recorded):
+/// the returned quads (as text, in the order returned) and the identifier map
+pub fn quick_relabel(order: &[Q], sha384: bool) -> Result<(Vec<String>, BTreeMap<String, String>), String> {
+    let d = OrderedVec(order.to_vec());
+    let r = quiet_catch(|| {
+        let r = if sha384 { relabel_sha384(&d) } else { relabel(&d) };
+        r.map_err(|e| format!("{e}")).map(|(qs, map)| {
+            let out: Vec<String> = qs.iter().map(|q| show_q(&([to_st(q.0[0].borrow_term()), to_st(q.0[1].borrow_term()), to_st(q.0[2].borrow_term())], q.1.as_ref().map(|g| to_st(g.borrow_term()))))).collect();
+            let map: BTreeMap<String, String> = map.iter().map(|(k, v)| (k.to_string(), v.as_str().to_string())).collect();
+            (out, map)
+        })
+    });
+    match r {
+        Err(p) => Err(format!("panic: {p}")),
+        Ok(x) => x,
+    }
+}
+/// are the labels exactly c14n0 .. c14n(n-1)?
+pub fn canonical_shaped(labels: &BTreeSet<String>) -> bool {
+    *labels == (0..labels.len()).map(|i| format!("c14n{i}")).collect::<BTreeSet<String>>()
+}
+/// new labels (aligned with `labels`) taken from the name spaces RDFC-1.0 uses itself: the canonical identifiers
+/// c14n0.. in the canonical arrangement (`canon`: the document read back), in other arrangements (two exchanged,
+/// rotated, shuffled, the arrangement computed with the other hash function `other`, numbered in label order and
+/// in reverse label order), near misses of that shape (numbered from one, one gap, one foreign or look-alike label),
+/// the temporary identifiers b0.., and mixtures with the place holders a / z of the first-degree hash.
+/// Every scheme is a bijection.
+pub fn alias_schemes(labels: &[String], canon: &BTreeMap<String, String>, other: Option<&BTreeMap<String, String>>, r: &mut Rng) -> Vec<(String, Vec<String>)> {
+    let n = labels.len();
+    let cn = |i: usize| format!("c14n{i}");
+    let c: Vec<String> = labels.iter().map(|l| canon[l].clone()).collect();
+    let mut out: Vec<(String, Vec<String>)> = vec![("canonical identifiers as issued (the document read back)".into(), c.clone())];
+    if n >= 2 {
+        let i = r.below(n);
+        let j = (i + 1 + r.below(n - 1)) % n;
+        let mut v = c.clone();
+        v.swap(i, j);
+        out.push(("canonical identifiers, two of them exchanged".into(), v));
+        out.push(("canonical identifiers numbered in reverse".into(), c.iter().map(|x| cn(n - 1 - x[4..].parse::<usize>().unwrap_or(0))).collect()));
+    }
+    if n >= 3 {
+        out.push(("canonical identifiers rotated by one".into(), c.iter().map(|x| cn((x[4..].parse::<usize>().unwrap_or(0) + 1) % n)).collect()));
+        let mut v = c.clone();
+        for _ in 0..4 { shuffle(&mut v, r); if v != c { break; } }
+        out.push(("canonical identifiers shuffled".into(), v));
+    }
+    if let Some(o) = other {
+        if labels.iter().all(|l| o.contains_key(l)) { out.push(("canonical identifiers as issued under the other hash function".into(), labels.iter().map(|l| o[l].clone()).collect())); }
+    }
+    out.push(("c14n0.. in the order of the input labels".into(), (0..n).map(cn).collect()));
+    out.push(("c14n0.. in the reverse order of the input labels".into(), (0..n).map(|i| cn(n - 1 - i)).collect()));
+    out.push(("canonical identifiers numbered from one (c14n0 missing)".into(), c.iter().map(|x| cn(x[4..].parse::<usize>().unwrap_or(0) + 1)).collect()));
+    {
+        let mut v = c.clone();
+        v[r.below(n)] = cn(n + r.below(2) * 9);
+        out.push(("canonical identifiers with a gap in the numbering".into(), v));
+        let mut v = c.clone();
+        v[r.below(n)] = r.ps(&["x", "c14n", "c14n00", "c14n01", "C14N0", "c14n-1", "c14n0a", "b0", "c14n_0", "c15n0"]).to_string();
+        out.push(("canonical identifiers, one replaced by a foreign or look-alike label".into(), v));
+    }
+    {
+        let mut p: Vec<usize> = (0..n).collect();
+        shuffle(&mut p, r);
+        out.push(("temporary identifiers b0..".into(), p.iter().map(|i| format!("b{i}")).collect()));
+        let mut pool: Vec<String> = (0..=n).map(cn).chain((0..=n).map(|i| format!("b{i}"))).chain(["a", "z", "c14n", "b"].iter().map(|x| x.to_string())).collect();
+        shuffle(&mut pool, r);
+        pool.truncate(n);
+        out.push(("a mixture of canonical, temporary and place-holder identifiers".into(), pool));
+    }
+    let mut seen: Vec<Vec<String>> = vec![];
+    out.retain(|(_, v)| {
+        let distinct = v.iter().collect::<BTreeSet<_>>().len() == v.len();
+        if !distinct || v.len() != n || seen.contains(v) { return false; }
+        seen.push(v.clone());
+        true
+    });
+    out
+}
+/// the canonical document read back and then EDITED: a quad about a new blank node added (the new node named
+/// c14n(n), as a careless merge would, or keeping a fresh label), a ground quad added to one of the nodes (the labels
+/// still are exactly c14n0..c14n(n-1) but the arrangement is stale), a quad removed.  Returns (description, the
+/// edited dataset under the ORIGINAL labels, the relabelling: canonical identifiers of the unedited dataset)
+pub fn alias_edits(o: &[Q], canon: &BTreeMap<String, String>, r: &mut Rng) -> Vec<(String, Vec<Q>, Vec<(String, String)>)> {
+    let n = canon.len();
+    let labels: Vec<String> = canon.keys().cloned().collect();
+    let m: Vec<(String, String)> = canon.iter().map(|(k, v)| (k.clone(), v.clone())).collect();
+    let mut out = vec![];
+    if labels.is_empty() || labels.iter().any(|l| l == "zzn") { return out; }
+    let at = |v: &mut Vec<Q>, q: Q, r: &mut Rng| { let k = r.below(v.len() + 1); v.insert(k, q); };
+    let old = bnode(labels[r.below(labels.len())].as_str());
+    let link = if r.chance(1, 2) { e(bnode("zzn"), "http://e/s2", old.clone()) } else { e(old.clone(), "http://e/s2", bnode("zzn")) };
+    let mut v = o.to_vec();
+    at(&mut v, link, r);
+    let mut m2 = m.clone();
+    m2.push(("zzn".into(), format!("c14n{n}")));
+    out.push((format!("the document read back, merged with a quad about a new node named c14n{n}"), v.clone(), m2));
+    out.push(("the document read back, a quad about a new node with a fresh label added".into(), v, m.clone()));
+    let mut v = o.to_vec();
+    at(&mut v, e(old, "http://e/mark", lit_dt("m", &format!("{XSD}string"))), r);
+    out.push(("the document read back, a ground quad added to one node (labels still c14n0.., arrangement stale)".into(), v, m.clone()));
+    if o.len() >= 2 {
+        let mut v = o.to_vec();
+        v.remove(r.below(o.len()));
+        if !d_blanks(&v).is_empty() { out.push(("the document read back, one quad removed".into(), v, m.clone())); }
+    }
+    out
+}
+/// the canonical documents of a dataset and of its relabelled copy (same quads, same order) differ
+fn alias_mismatch(scheme: &str, base: &[Q], base_bytes: &Result<String, String>, dv: &[Q], got: &Result<String, String>, sha384: bool, fails: &mut Vec<String>) {
+    let (sb, sv) = (spec_run(base, sha384), spec_run(dv, sha384));
+    let t = sb.as_ref().ok().and_then(|s| nonauto_tie(s, base)).or_else(|| sv.as_ref().ok().and_then(|s| nonauto_tie(s, dv)));
+    let spec_agrees = matches!((&sb, &sv, base_bytes, got), (Ok(x), Ok(y), Ok(b), Ok(g)) if &x.bytes == b && &y.bytes == g);
+    if let (Some((x, y)), true) = (&t, spec_agrees) {
+        // (the known finding: reported once per case)
+        if !fails.iter().any(|f| f.starts_with("RDFC-1.0 tie between non-automorphic nodes")) {
+        fails.push(format!("RDFC-1.0 tie between non-automorphic nodes (_:{x} and _:{y} get equal hash-n-degree results; the independent transcription of the W3C text behaves identically{}): {} and the same quads in the same order relabelled ({scheme}) {} get different canonical documents {:?} and {:?}", if has_three(base) { "; the dataset has a quad with three blank nodes" } else { "" }, show_d(base), show_d(dv), base_bytes, got));
+        }
+    } else {
+        fails.push(format!("canonical bytes depend on the blank node labels: {} gives {:?} but the same quads in the same order relabelled ({scheme}) {} give {:?}{}", show_d(base), base_bytes, show_d(dv), got, match &sv { Ok(s) => format!("; RDFC-1.0 as transcribed from the W3C text gives {:?} for the relabelled dataset", s.bytes), Err(_) => String::new() }));
+    }
+}
+
 // ---------------------------------------------------------------- the two drivers
 fn parse_back(bytes: &str) -> Result<Vec<Q>, String> {
     let mut out: Vec<Q> = vec![];
@@ -1405,7 +1528,7 @@ pub fn run(mode: &str) {
     sum.rule = if c06 {
         "case = (dataset: every graph over 3 blank nodes and 2 predicates with 1..4 edges in the thorough tier, then the C05 shapes (including near-identical quads, parallel edges and sibling nodes related to one other node through several predicates / graphs / directions) with emphasis on literals with escape-relevant characters, quads mentioning one node twice and quads with three blank nodes, and (rarely, being expensive) datasets with more than ten blank nodes in which one node is related twice to another, so that temporary identifiers _:b9 / _:b10 give permutation paths of different lengths; store type among the nine of C05; SHA-256 or SHA-384; for one case in eight also an OrderedVec yielding one quad twice (implementation against its model and the Rust transcription only); run once with the default limits and once with (depth_factor, permutation_limit) from the grid {0,.25,.5,1,1.5,2,3} x {0,1,2,3,4,6,12}); three-way comparison implementation / model of the implementation / model of the specification; non-trivial = hash-n-degree ran (two blank nodes share a first-degree hash), or a literal needs escaping, or the input is unsupported, or a limit fired; distinct = distinct (dataset, limits, hash)".into()
     } else {
-        "case = (dataset of one shape among cycle / clique / disjoint isomorphic components / star / bipartite / blank graph names / node twice in a quad / three blank nodes in a quad / section-4-row-28 witness / literals / random / unsupported / tree, at most 6 blank nodes, and, every third case, near-identical quads (same lexical form under other datatypes / language tags, IRIs and lexical forms that are prefixes of each other, graph name present / absent / blank, at one or two positions of otherwise equal quads) or parallel edges (a root related to each child through 1..3 quads differing only by graph name or object, children told apart 0..2 steps further, repeated so that the root goes through hash-n-degree: the permuted related-node list is a multiset in the order the dataset yields the quads), and, every sixth case, 2..4 sibling nodes of equal first-degree hash each related to its own child (sometimes two children) through the same pattern of 2..4 quads differing by predicate, graph name or direction (child as object / subject / graph name), the children told apart by a literal each / one step further / in pairs / not at all, so that the siblings are ordered by hash-n-degree against non-automorphic and automorphic members of their group; a copy under a random label bijection and quad order; two store types among HashSet, BTreeSet, FastDataset, LightDataset, OrderedVec (yields in insertion order), BTreeSet / HashSet of Gspo, Fast/LightDataset after inserting and removing other quads; SHA-256 or SHA-384; plus the same quads in up to 24 other insertion orders (a focus group of quads permuted in every way; for sibling nodes the quads of every sibling permuted independently, all combinations up to 64, and interleaved) through normalize / normalize_sha384, the entry points with default limits against normalize_with / relabel_with, a writer taking 1..3 bytes per call, a writer failing after a byte budget, every accessor of the returned terms, and for some cases other limits from the C06 grid, a dataset whose iterator fails, a dataset yielding one quad twice); non-trivial = hash-n-degree ran (two blank nodes share a first-degree hash); distinct = distinct (dataset, copy, hash)".into()
+        "case = (dataset of one shape among cycle / clique / disjoint isomorphic components / star / bipartite / blank graph names / node twice in a quad / three blank nodes in a quad / section-4-row-28 witness / literals / random / unsupported / tree, at most 6 blank nodes, and, every third case, near-identical quads (same lexical form under other datatypes / language tags, IRIs and lexical forms that are prefixes of each other, graph name present / absent / blank, at one or two positions of otherwise equal quads) or parallel edges (a root related to each child through 1..3 quads differing only by graph name or object, children told apart 0..2 steps further, repeated so that the root goes through hash-n-degree: the permuted related-node list is a multiset in the order the dataset yields the quads), and, every sixth case, 2..4 sibling nodes of equal first-degree hash each related to its own child (sometimes two children) through the same pattern of 2..4 quads differing by predicate, graph name or direction (child as object / subject / graph name), the children told apart by a literal each / one step further / in pairs / not at all, so that the siblings are ordered by hash-n-degree against non-automorphic and automorphic members of their group; a copy under a random label bijection and quad order; two store types among HashSet, BTreeSet, FastDataset, LightDataset, OrderedVec (yields in insertion order), BTreeSet / HashSet of Gspo, Fast/LightDataset after inserting and removing other quads; SHA-256 or SHA-384; plus the same quads in up to 24 other insertion orders (a focus group of quads permuted in every way; for sibling nodes the quads of every sibling permuted independently, all combinations up to 64, and interleaved) through normalize / normalize_sha384, the entry points with default limits against normalize_with / relabel_with, a writer taking 1..3 bytes per call, a writer failing after a byte budget, every accessor of the returned terms, and for some cases other limits from the C06 grid, a dataset whose iterator fails, a dataset yielding one quad twice; and the same quads in the same order under up to 13 relabellings into the name spaces the algorithm uses itself: the canonical identifiers c14n0..c14n(n-1) as issued (the document read back), two exchanged, rotated, reversed, shuffled, as issued under the other hash function, numbered in input-label order, numbered from one, with a gap, with one foreign or look-alike label, the temporary identifiers b0.., mixtures with the place holders a / z, and the document read back and then edited (a quad about a new node named c14n(n) or freshly named, a ground quad added, a quad removed): same document as under the original labels, same identifier for every node when step 5 meets no tie, one relabelling per case compared with the model); non-trivial = hash-n-degree ran (two blank nodes share a first-degree hash); distinct = distinct (dataset, copy, hash)".into()
     };
     let base = Rng::new(a.seed);
     // tier-dependent generation is selected by an explicit flag so that `--only` replays reproduce it
@@ -1597,6 +1720,71 @@ pub fn run(mode: &str) {
                 sum.bump("run:dataset-yielding-a-quad-twice");
                 body.push(format!("impl_ok {once} tbl 1000 6 {} {} {} {}", c_quads(&order), out.code, pstr(&out.bytes), c_idmap(&out.idmap)));
             }
+            // (i) blank node labels taken from the name spaces the algorithm uses itself (c14n0.. in the canonical and
+            // in other arrangements, near misses, b0.., a / z), on the dataset and on edited versions of it: same
+            // document, and (when step 5 meets no tie) the same identifier for every node
+            if out1.code == 0 && spec1.is_ok() && !d_blanks(&o1).is_empty() && work <= 200 {
+                let mut ra = base.fork(idx as u64).fork(0xA11A5);
+                let canon: BTreeMap<String, String> = out1.idmap.iter().cloned().collect();
+                let labels1: Vec<String> = d_blanks(&o1).into_iter().collect();
+                if labels1.iter().all(|l| canon.contains_key(l)) {
+                    let other = quick_relabel(&o1, !sha384).ok().map(|x| x.1);
+                    let no_ties = spec1.as_ref().map(|s| s.ties.is_empty()).unwrap_or(false);
+                    let mut variants: Vec<(String, Vec<Q>, Result<String, String>, Vec<(String, String)>, bool)> = vec![];
+                    for (name, new) in alias_schemes(&labels1, &canon, other.as_ref(), &mut ra) {
+                        variants.push((name, o1.clone(), Ok(out1.bytes.clone()), labels1.iter().cloned().zip(new).collect(), true));
+                    }
+                    for (name, dd, m) in alias_edits(&o1, &canon, &mut ra) {
+                        let rb = quick_bytes(&dd, sha384);
+                        variants.push((name, dd, rb, m, false));
+                    }
+                    let pick = ra.below(variants.len());
+                    let mut bad_handed = false;
+                    let got1: Vec<String> = out1.quads.iter().map(show_q).collect();
+                    for (k, (name, dd, refb, m, pure)) in variants.iter().enumerate() {
+                        let mm: BTreeMap<String, String> = m.iter().cloned().collect();
+                        let f = |l: &str| mm.get(l).cloned().unwrap_or_else(|| l.to_string());
+                        let dv: Vec<Q> = dd.iter().map(|q| rename_q(q, &f)).collect();
+                        let shaped = canonical_shaped(&d_blanks(&dv));
+                        sum.bump("relabelled-with-the-algorithm's-own-identifiers");
+                        sum.bump(if shaped { "labels:exactly-c14n0..c14n(n-1)" } else { "labels:other-own-identifiers" });
+                        if !*pure { sum.bump("labels:on-an-edited-document"); }
+                        let before = fails.len();
+                        let got = quick_bytes(&dv, sha384);
+                        if got != *refb { alias_mismatch(name, dd, refb, &dv, &got, sha384, &mut fails); }
+                        if *pure && no_ties {
+                            // the relabelling map does not depend on the labels: every node gets the identifier it got before
+                            match quick_relabel(&dv, sha384) {
+                                Err(e) => fails.push(format!("relabel fails ({e}) on {} ({name})", show_d(&dv))),
+                                Ok((qs, im)) => {
+                                    if let Some(l) = labels1.iter().find(|l| im.get(&f(l.as_str())) != canon.get(l.as_str())) {
+                                        fails.push(format!("the identifier map depends on the blank node labels (no tie in step 5): _:{l} of {} gets {:?}, but under the label _:{} ({name}) in {} it gets {:?}", show_d(dd), canon.get(l.as_str()), f(l.as_str()), show_d(&dv), im.get(&f(l.as_str()))));
+                                    } else if qs != got1 {
+                                        fails.push(format!("the relabelled quads depend on the blank node labels (no tie in step 5): {:?} for {} but {:?} for {} ({name})", got1, show_d(dd), qs, show_d(&dv)));
+                                    }
+                                }
+                            }
+                        }
+                        let bad = fails.len() > before;
+                        if k == pick || (bad && !bad_handed) {
+                            // run with the recording hash function, checked on its own and handed to the model
+                            if bad { bad_handed = true; }
+                            if !*pure {
+                                let (ob, outb) = run_impl_p(dd, ORDERED, sha384, 1.0, 6, false);
+                                let specb = spec_run(&ob, sha384);
+                                check_one(&format!("edited dataset ({name})"), &ob, &ob, &outb, &specb, 1000, 6, &mut fails);
+                                body.push(format!("impl_ok {once} tbl 1000 6 {} {} {} {}", c_quads(&ob), outb.code, pstr(&outb.bytes), c_idmap(&outb.idmap)));
+                            }
+                            let (o3, out3) = run_impl_p(&dv, ORDERED, sha384, 1.0, 6, false);
+                            let spec3 = spec_run(&o3, sha384);
+                            check_one(&format!("relabelled ({name})"), &o3, &o3, &out3, &spec3, 1000, 6, &mut fails);
+                            sum.bump("run:relabelled-with-own-identifiers,model-compared");
+                            body.push(format!("alias_ok {once} tbl 1000 6 {} {} {} {} {} {}", c_quads(dd), c_idmap(m), coq_bool(shaped), out3.code, pstr(&out3.bytes), c_idmap(&out3.idmap)));
+                            if a.only.is_some() { println!("ALIAS {name}: order={} => code {} {} bytes={:?} idmap={:?}", show_d(&o3), out3.code, out3.msg, out3.bytes, out3.idmap); }
+                        }
+                    }
+                }
+            }
             text.push_str(&format!(" copy={}", show_d(&d2)));
         }
         let table = take_table();
@@ -1624,7 +1812,7 @@ pub fn run(mode: &str) {
         cases.push((idx, format!("let tbl := {} in {}", coq_table(&table), body.join(" && "))));
     }
     if a.only.is_none() {
-        let header = if c06 { "From Coq Require Import Uint63.\nFrom Sophia.C05 Require Import Model.\nFrom Sophia.C06 Require Import Model." } else { "From Coq Require Import Uint63.\nFrom Sophia.C05 Require Import Model Entry." };
+        let header = if c06 { "From Coq Require Import Uint63.\nFrom Sophia.C05 Require Import Model.\nFrom Sophia.C06 Require Import Model." } else { "From Coq Require Import Uint63.\nFrom Sophia.C05 Require Import Model Entry Alias." };
         sum.shards = write_shards(&a.out, header, &cases, a.shards);
         sum.extra.push(("max_hash_table_entries".into(), max_table.to_string()));
         std::fs::write(format!("{}/summary.json", a.out), sum.to_json()).unwrap();
